@@ -875,10 +875,9 @@ func inBodyIM(p *parser) bool {
 		switch n := p.oe.top(); n.DataAtom {
 		case a.Pre, a.Listing:
 			if n.FirstChild == nil {
-				// Ignore a newline at the start of a <pre> block.
-				if d != "" && d[0] == '\r' {
-					d = d[1:]
-				}
+				// Ignore a newline at the start of a <pre> block. The tokenizer
+				// has turned CR and CRLF in the input into LF; a CR here
+				// comes from a character reference and is kept.
 				if d != "" && d[0] == '\n' {
 					d = d[1:]
 				}
@@ -1438,10 +1437,9 @@ func textIM(p *parser) bool {
 	case TextToken:
 		d := p.tok.Data
 		if n := p.oe.top(); n.DataAtom == a.Textarea && n.FirstChild == nil {
-			// Ignore a newline at the start of a <textarea> block.
-			if d != "" && d[0] == '\r' {
-				d = d[1:]
-			}
+			// Ignore a newline at the start of a <textarea> block. The tokenizer
+			// has turned CR and CRLF in the input into LF; a CR here comes
+			// from a character reference and is kept.
 			if d != "" && d[0] == '\n' {
 				d = d[1:]
 			}
